@@ -1302,7 +1302,7 @@ impl Session {
                         .awaiting_since
                         .lock()
                         .await
-                        .map(|since| since + heartbeat_state.timeout);
+                        .and_then(|since| since.checked_add(heartbeat_state.timeout));
                     let is_tick = tokio::select! {
                         biased;
                         _ = ticker.tick() => true,
